@@ -72,6 +72,7 @@ def run(rep, tier):
         scratch(rep, c, sfx)
         boundary(rep, c, sfx)
         advance(rep, c, sfx)
+        strlen_rule(rep, c, sfx)
         if cfg != "nomemchr":
             skiparms(rep, c, sfx)
         else:
@@ -947,6 +948,92 @@ def advance(rep, c, sfx):
                             "inside or past a character (e.g. DEL U+007F taken as a 2-byte lead)" % (b["name"], step, why))
     if n == 0:
         r.lost("writes to Position.pos")
+
+
+def strlen_rule(rep, c, sfx):
+    """A step of `s.len()` bytes for a string parameter s is a whole number of characters of the INPUT only if the
+    input was shown to hold, at the cursor, a slice of exactly that byte length ending on a character boundary."""
+    r = rep.rule("C03.STRLEN" + sfx, 2,
+                 "a Position method that moves the cursor by the byte length of a string argument does so only under a "
+                 "test that the input holds a slice of exactly that length at the cursor (starts_with / strip_prefix / "
+                 "`get(range of that length)` / is_char_boundary): matching char by char and then stepping by the "
+                 "argument's length lands inside a character whenever the matched characters have other widths")
+    n = 0
+    for b in c.bodies:
+        if b.get("impl_self") != POSITION or b.get("body") is None or b.get("exp"):
+            continue
+        strs = {}
+        for p in b["params"]:
+            for q in walk(p):
+                if q.get("k") == "PBind" and str(q.get("ty", "")).replace("&", "").strip() in ("str", "'i str") or \
+                        (q.get("k") == "PBind" and str(q.get("ty", "")).endswith("str")):
+                    strs[q["id"]] = q["name"]
+        if not strs:
+            continue
+        ctx = hirq.Ctx(b)
+        lets = hirq.lets(b["body"])
+
+        def expand(e, depth=0, seen=None):
+            """nodes of e, following immutable locals into their initialisers"""
+            seen = seen if seen is not None else set()
+            for y in walk(e):
+                yield y
+                if kind(y) == "Path" and y.get("res") == "local" and y["id"] in lets and y["id"] not in seen and depth < 4:
+                    seen.add(y["id"])
+                    init = lets[y["id"]][0]
+                    if init is not None:
+                        for z in expand(init, depth + 1, seen):
+                            yield z
+
+        def len_of(e):
+            """ids of string parameters whose .len() occurs in e (through locals)"""
+            out = set()
+            for y in expand(e):
+                if kind(y) == "MethodCall" and y["m"] == "len":
+                    rid = hirq.local_id(peel(y["recv"]))
+                    if rid in strs:
+                        out.add(rid)
+            return out
+
+        for x in walk(b["body"]):
+            if kind(x) not in ("Assign", "AssignOp"):
+                continue
+            tgt = peel(x["l"])
+            if not (kind(tgt) == "Field" and tgt["name"] == "pos" and "Position" in tgt.get("bty", "")):
+                continue
+            ss = len_of(x["r"])
+            for sid in sorted(ss):
+                n += 1
+                key = "%s:%s.len()" % (b["name"], strs[sid])
+                r.instance(key, where(x))
+                witness = None
+                for g in ctx.guards(x):
+                    if g[0] == "if" and g[2] is True or g[0] in ("guard", "not"):
+                        cond = g[1]
+                    elif g[0] == "arm":
+                        cond = g[1]["scrut"]
+                    else:
+                        continue
+                    for y in expand(cond):
+                        if kind(y) != "MethodCall" and kind(y) != "Index":
+                            continue
+                        if kind(y) == "MethodCall" and y["m"] in ("starts_with", "strip_prefix") and \
+                                any(hirq.local_id(z) == sid for a in y["args"] for z in walk(a)):
+                            witness = y["m"]
+                        elif kind(y) == "MethodCall" and y["m"] == "is_char_boundary":
+                            witness = y["m"]
+                        elif kind(y) == "MethodCall" and y["m"] in ("get", "get_mut") and any(sid in len_of(a) for a in y["args"]):
+                            witness = "get(range of %s.len())" % strs[sid]
+                        elif kind(y) == "Index" and sid in len_of(y["idx"]):
+                            witness = "[range of %s.len()]" % strs[sid]
+                if witness is None:
+                    r.violation(key, where(x),
+                                "Position::%s moves the cursor by %s.len() bytes, but no dominating test shows that the "
+                                "input holds a slice of that byte length at the cursor: if the matched characters differ "
+                                "in width from the argument's (case folding of non-ASCII letters), the new position is "
+                                "inside a character" % (b["name"], strs[sid]))
+    if n == 0:
+        r.lost("cursor steps by the length of a string argument (match_string / match_insensitive)")
 
 
 def _eval_byte(e, bval):
